@@ -72,7 +72,172 @@ let run_cell (fields : string list) : string =
      | _ -> "ERR unknown fn " ^ fn)
   | _ -> "ERR bad cell line"
 
-let handlers : (string * (string list -> string)) list ref = ref [ ("cell", run_cell) ]
+
+(* ---- hex, env, traces ---- *)
+let bytes_of_hex (h : string) : z list =
+  let n = String.length h / 2 in
+  List.init n (fun i -> z_of_int (int_of_string ("0x" ^ String.sub h (2 * i) 2)))
+
+let opt_nat (s : string) : nat option = if s = "-" then None else Some (nat_of_int (int_of_string s))
+
+(* env := <input-hex>,<absent 0/1>,<in_fail_at or ->,<out_present 0/1>,<out_fail_at or -> *)
+let env_of (s : string) : env =
+  match split_on ',' s with
+  | [inp; ab; ifa; op; ofa] ->
+    { input = bytes_of_hex inp; in_absent = (ab = "1"); in_fail_at = opt_nat ifa;
+      out_present = (op = "1"); out_fail_at = opt_nat ofa }
+  | _ -> failwith "bad env"
+
+let hex2 (x : z) : string = Printf.sprintf "%02x" (int_of_z x)
+let ev_s = function
+  | EvIn b -> "I:" ^ hex2 b
+  | EvEof -> "I:eof"
+  | EvInFail -> "I:!"
+  | EvOut b -> "O:" ^ hex2 b
+  | EvOutFail b -> "O!:" ^ hex2 b
+let trace_s (i : iost) : string =
+  (* i.trace is most-recent-first; rev_map yields oldest-first without deep recursion *)
+  let strs = List.rev_map ev_s i.trace in
+  if strs = [] then "-" else String.concat " " strs
+
+let outcome_s (get_io : 'a -> iost) (o : 'a outcome) : string =
+  let tag = match o with
+    | Done _ -> "done" | Stopped _ -> "stopped" | Interrupted _ -> "interrupted"
+    | Errored (p, _) -> "err:" ^ sz p | OutOfFuel _ -> "fuel" in
+  let fin = match o with Interrupted _ -> "0" | _ -> "1" in
+  tag ^ " " ^ fin ^ " " ^ trace_s (get_io (outcome_state o))
+
+(* ---- token streams ---- *)
+type toks = { mutable l : string list }
+let toks_of (s : string) : toks = { l = List.filter (fun x -> x <> "") (split_on ' ' s) }
+let tok (t : toks) : string = match t.l with x :: r -> t.l <- r; x | [] -> failwith "eof tokens"
+let tz_ (t : toks) : z = zs (tok t)
+let ti (t : toks) : int = int_of_string (tok t)
+
+(* expr := np (coef nv var{nv}){np} *)
+let parse_expr (t : toks) : expr =
+  let np = ti t in
+  List.init np (fun _ -> let c = tz_ t in let nv = ti t in let vs = List.init nv (fun _ -> tz_ t) in (c, vs))
+let print_expr (b : Buffer.t) (e : expr) : unit =
+  Buffer.add_string b (string_of_int (List.length e));
+  List.iter (fun (c, vs) ->
+      Buffer.add_string b (" " ^ sz c ^ " " ^ string_of_int (List.length vs));
+      List.iter (fun v -> Buffer.add_string b (" " ^ sz v)) vs) e
+
+(* block := { shift inst* } ; inst := o src | i dst | c n (var expr){n} | l cond once block | f cond block *)
+let rec parse_block (t : toks) : z * instr list =
+  (match tok t with "{" -> () | x -> failwith ("expected { got " ^ x));
+  let shift = tz_ t in
+  let rec insts acc =
+    match tok t with
+    | "}" -> List.rev acc
+    | "o" -> let s = tz_ t in insts (IOut s :: acc)
+    | "i" -> let d = tz_ t in insts (IIn d :: acc)
+    | "c" -> let n = ti t in
+      let cs = List.init n (fun _ -> let v = tz_ t in let e = parse_expr t in (v, e)) in insts (ICalc cs :: acc)
+    | "l" -> let c = tz_ t in let once = (tok t = "1") in let (sh, b) = parse_block t in insts (ILoop (c, sh, b, once) :: acc)
+    | "f" -> let c = tz_ t in let (sh, b) = parse_block t in insts (IIf (c, sh, b) :: acc)
+    | x -> failwith ("bad inst token " ^ x) in
+  let is = insts [] in (shift, is)
+
+let rec print_block (b : Buffer.t) ((shift, is) : z * instr list) : unit =
+  Buffer.add_string b ("{ " ^ sz shift);
+  List.iter (fun i ->
+      match i with
+      | IOut s -> Buffer.add_string b (" o " ^ sz s)
+      | IIn d -> Buffer.add_string b (" i " ^ sz d)
+      | ICalc cs -> Buffer.add_string b (" c " ^ string_of_int (List.length cs));
+        List.iter (fun (v, e) -> Buffer.add_string b (" " ^ sz v ^ " "); print_expr b e) cs
+      | ILoop (c, sh, body, once) -> Buffer.add_string b (" l " ^ sz c ^ (if once then " 1 " else " 0 ")); print_block b (sh, body)
+      | IIf (c, sh, body) -> Buffer.add_string b (" f " ^ sz c ^ " "); print_block b (sh, body)) is;
+  Buffer.add_string b " }"
+
+(* bc := temps min max n (live inst){n} *)
+let parse_loc (t : toks) : loc =
+  match tok t with
+  | "m" -> Mem (tz_ t) | "mz" -> MemZero (tz_ t) | "t" -> Tmp (tz_ t) | "#" -> Imm (tz_ t)
+  | x -> failwith ("bad loc " ^ x)
+let parse_bc (t : toks) : bprog =
+  let temps = tz_ t in let mn = tz_ t in let mx = tz_ t in let n = ti t in
+  let live = ref [] and code = ref [] in
+  for _ = 1 to n do
+    live := tz_ t :: !live;
+    let i = match tok t with
+      | "n" -> Noop
+      | "s" -> let c = tz_ t in let s = tz_ t in Scan (c, s)
+      | "m" -> MovP (tz_ t)
+      | "i" -> Inp (tz_ t)
+      | "o" -> Outp (tz_ t)
+      | "z" -> let c = tz_ t in let o = tz_ t in BrZ (c, o)
+      | "nz" -> let c = tz_ t in let o = tz_ t in BrNZ (c, o)
+      | "a" -> let d = parse_loc t in let a = parse_loc t in let b = parse_loc t in Add (d, a, b)
+      | "u" -> let d = parse_loc t in let a = parse_loc t in let b = parse_loc t in Sub (d, a, b)
+      | "x" -> let d = parse_loc t in let a = parse_loc t in let b = parse_loc t in Mul (d, a, b)
+      | "c" -> let d = parse_loc t in let a = parse_loc t in Copy (d, a)
+      | x -> failwith ("bad bc token " ^ x) in
+    code := i :: !code
+  done;
+  { bp_temps = temps; bp_min = mn; bp_max = mx; bp_live = List.rev !live; bp_code = List.rev !code }
+
+(* ---- run commands ---- *)
+(* bf|w|fuel|src-hex|env *)
+let run_bf = function
+  | [w; fuel; src; env] ->
+    (match bf_machine_run (zs w) (env_of env) (nat_of_int (int_of_string fuel)) (bytes_of_hex src) with
+     | None -> "unbalanced"
+     | Some o -> outcome_s (fun (s : bfst) -> s.io) o)
+  | _ -> "ERR bad bf line"
+
+(* bfbig|w|fuel|src-hex|env : the big-step definition (only for terminating programs) *)
+let run_bfbig = function
+  | [w; fuel; src; env] ->
+    (match bf_run (zs w) (env_of env) (nat_of_int (int_of_string fuel)) (bytes_of_hex src) with
+     | None -> "unbalanced"
+     | Some o -> outcome_s (fun (s : bfst) -> s.io) o)
+  | _ -> "ERR bad bf line"
+
+(* irbig|w|limited|budget|fuel|ir-text|env *)
+let run_irbig = function
+  | [w; lim; budget; fuel; ir; env] ->
+    let blk = parse_block (toks_of ir) in
+    outcome_s (fun (s : irst) -> s.ir_io)
+      (ir_run (zs w) (env_of env) (lim = "1") (zs budget) (nat_of_int (int_of_string fuel)) blk)
+  | _ -> "ERR bad ir line"
+
+(* inplace|w|limited|budget|fuel|src-hex|env *)
+let run_inplace = function
+  | [w; lim; budget; fuel; src; env] ->
+    outcome_s (fun (s : ipst) -> s.ip_io)
+      (ip_run (zs w) (env_of env) (lim = "1") (zs budget) (nat_of_int (int_of_string fuel)) (bytes_of_hex src))
+  | _ -> "ERR bad inplace line"
+
+(* ir|w|limited|budget|fuel|ir-text|env *)
+let run_ir = function
+  | [w; lim; budget; fuel; ir; env] ->
+    let blk = parse_block (toks_of ir) in
+    outcome_s (fun (s : irst) -> s.ir_io)
+      (ir_machine_run (zs w) (env_of env) (lim = "1") (zs budget) (nat_of_int (int_of_string fuel)) blk)
+  | _ -> "ERR bad ir line"
+
+(* bc|w|limited|budget|fuel|bc-text|env *)
+let run_bc = function
+  | [w; lim; budget; fuel; bc; env] ->
+    let p = parse_bc (toks_of bc) in
+    outcome_s (fun (s : bcst) -> s.bc_io)
+      (bc_run (zs w) (env_of env) (lim = "1") (zs budget) (nat_of_int (int_of_string fuel)) p)
+  | _ -> "ERR bad bc line"
+
+(* parse|w|cp,cp,cp,... *)
+let run_parse = function
+  | [w; cps] ->
+    let cs = if cps = "" then [] else List.map zs (split_on ',' cps) in
+    (match parse (zs w) cs with
+     | POk blk -> let b = Buffer.create 256 in print_block b blk; "ok " ^ Buffer.contents b
+     | PErr (LoopNotClosed, p) -> "err LoopNotClosed " ^ sz p
+     | PErr (LoopNotOpened, p) -> "err LoopNotOpened " ^ sz p)
+  | _ -> "ERR bad parse line"
+
+let handlers : (string * (string list -> string)) list ref = ref [ ("cell", run_cell); ("bf", run_bf); ("inplace", run_inplace); ("ir", run_ir); ("bc", run_bc); ("parse", run_parse); ("bfbig", run_bfbig); ("irbig", run_irbig) ]
 
 let () =
   (try
